@@ -1,7 +1,7 @@
 (* extraction of the executable C09 model. Z / positive are mapped to Zarith big integers (ExtrOcamlZBigInt):
    the exact objective of 200 samples of full-mantissa doubles has numerators of thousands of bits. *)
 From Coq Require Import List ZArith QArith Extraction ExtrOcamlBasic ExtrOcamlZBigInt.
-From LN Require Import C17_Defs C09_Defs.
+From LN Require Import C17_Defs C09_Defs C09_Real_Defs.
 Extraction Language OCaml.
 Extraction "extracted/c09_model.ml" chunks chunks_inline inline_schedule schedule_okb sort_chunks
   map_reduce reduced_mean naive_mean run_writes
@@ -12,4 +12,6 @@ Extraction "extracted/c09_model.ml" chunks chunks_inline inline_schedule schedul
   grads_value grads_grad grads_vbuf grads_gbuf grads_naive_value
   fill_cache deliver deliver_targets slice
   qlt qabs qsign qmax0 qsum dot
-  Qred Qplus Qminus Qmult Qdiv Qopp Qle_bool Qeq_bool inject_Z.
+  Qred Qplus Qminus Qmult Qdiv Qopp Qle_bool Qeq_bool inject_Z
+  (* extension: the proved floating-point re-association bound in exact rational arithmetic *)
+  gammaQ fp_mean_bound fp_mean_okb fp_pair_okb.
